@@ -559,6 +559,34 @@ pub fn gen_tails(c: &mut Ctx, out: &mut Vec<String>) {
 /// byte mutations; header decoder on the 20-byte prefixes
 pub fn gen_parse(c: &mut Ctx, out: &mut Vec<String>) {
     let tails = all_tails(3, &['i', 'j', 'f', 'g', 'o']);
+    if c.part % 4 == 0 {
+        // buffers whose excess over the advertised length is a multiple of 2^16 (a length comparison done in 16 bits
+        // would not see it), with the excess tiling as attributes or not; and advertised lengths just below / far below
+        // an over-long body
+        for k in 1..=2usize {
+            let n_ord = c.rng.below(3) as usize;
+            let mut m = assemble_rand(c.rng, n_ord, "");
+            for _ in 0..k {
+                let v = c.rng.bytes(65532);
+                m.extend(tlv(0x8fff, &v, 0));
+            }
+            out.push(format!("msg op=parse b={}", hex(&m)));
+            let mut m = assemble_rand(c.rng, n_ord, "f");
+            let e = c.rng.bytes(65536 * k);
+            m.extend(e);
+            out.push(format!("msg op=parse b={}", hex(&m)));
+        }
+        let mut m = header(0x0001, 65535, 9);
+        m.extend(c.rng.bytes(65536));
+        out.push(format!("msg op=parse b={}", hex(&m)));
+        let mut m = header(0x0001, 12, 9);
+        m.extend(tlv(0x8022, b"software", 0));
+        m.extend(tlv(0x8fff, &c.rng.bytes(65524), 0));
+        out.push(format!("msg op=parse b={}", hex(&m)));
+        let mut m = header(0x0001, 0, 9);
+        m.extend(tlv(0x8fff, &c.rng.bytes(65532), 0));
+        out.push(format!("msg op=parse b={}", hex(&m)));
+    }
     for _ in 0..c.count {
         let tail = c.rng.pick(&tails).clone();
         let tail = if c.rng.chance(3, 4) { tail.replace('g', "f") } else { tail };
